@@ -223,8 +223,8 @@ def entries():
     add("ConditionalDiagonalNormal/identity-encoder", "dist", lambda: D.ConditionalDiagonalNormal([3]), _rn(3), (lambda n, g: 0.5 * torch.randn(n, 6, generator=g)), flags={"sample", "needs_ctx", "mean", "noparams"})
     add("ConditionalIndependentBernoulli/identity-encoder", "dist", lambda: D.ConditionalIndependentBernoulli([3]), (lambda n, g: (torch.rand(n, 3, generator=g) < 0.5).float()), _rn(3), flags={"sample", "needs_ctx", "discrete", "mean", "noparams"})
     add("ConditionalIndependentBernoulli", "dist", lambda: D.ConditionalIndependentBernoulli([3], context_encoder=torch.nn.Linear(2, 3)), (lambda n, g: (torch.rand(n, 3, generator=g) < 0.5).float()), _rn(2), flags={"sample", "needs_ctx", "discrete", "mean"})
-    add("MADEMoG/one-feature", "dist", lambda: MADEMoG(1, 8, context_features=None, num_blocks=1, num_mixture_components=3), _rn(1), flags={"sample"})
-    add("MADEMoG", "dist", lambda: MADEMoG(3, 8, context_features=2, num_blocks=1, num_mixture_components=3), _rn(3), _rn(2), flags={"sample", "needs_ctx"})
+    add("MADEMoG/one-feature", "dist", lambda: MADEMoG(1, 8, context_features=None, num_blocks=1, num_mixture_components=3), _rn(1), flags={"sample", "nonreparam"})
+    add("MADEMoG", "dist", lambda: MADEMoG(3, 8, context_features=2, num_blocks=1, num_mixture_components=3), _rn(3), _rn(2), flags={"sample", "needs_ctx", "nonreparam"})
     # ---- flows
     add("Flow(LU+MAF|Normal)", "flow", lambda: FL.base.Flow(TR.CompositeTransform([TR.LULinear(3, identity_init=False), TR.MaskedAffineAutoregressiveTransform(3, 8, num_blocks=1)]), D.StandardNormal([3])), _rn(3), flags={"sample"})
     add("Flow(coupling|CondNormal)+embedding", "flow", lambda: FL.base.Flow(TR.AffineCouplingTransform([1, -1, 1], resnet(4)), D.ConditionalDiagonalNormal([3], context_encoder=torch.nn.Linear(4, 6)), embedding_net=torch.nn.Linear(2, 4)), _rn(3), _rn(2), flags={"sample", "needs_ctx"})
